@@ -22,6 +22,12 @@ const (
 	vpPolVictim     = 63
 )
 
+// polMaxEvents bounds the observations of one Add (a terminating Add over <= 14 resident
+// keys needs < 1000); beyond it the harness aborts the Add and reports non-termination.
+const polMaxEvents = 4000
+
+type polRunaway struct{}
+
 type polEvent struct {
 	id   int
 	a, b uint64
@@ -85,11 +91,41 @@ type polDriver struct {
 	events  []polEvent
 	tainted string // non-empty: the C03 history hypothesis (no raising update, MaxCost never lowered, costs >= 0) is gone
 	lenient bool   // overflow corner: only report, the Int oracles do not apply
+	dead    bool   // an Add was aborted (non-termination): the policy object is abandoned
 	phantom int
 	multi   int
 }
 
 func (d *polDriver) input() string { return strings.Join(d.hist, ";") }
+
+func (d *polDriver) guardedAdd(key uint64, cost int64) (victims []ristretto.VerifPair, added, runaway bool) {
+	defer func() {
+		if p := recover(); p != nil {
+			if _, ok := p.(polRunaway); ok {
+				runaway = true
+				return
+			}
+			panic(p)
+		}
+	}()
+	victims, added = d.p.Add(key, cost)
+	return
+}
+
+func fmtRounds(rounds []polRound, n int) string {
+	var parts []string
+	for i, rd := range rounds {
+		if i >= n {
+			break
+		}
+		v := "rejected"
+		if rd.victim != nil {
+			v = fmt.Sprintf("victim=%v", *rd.victim)
+		}
+		parts = append(parts, fmt.Sprintf("[appended=%v scanned=%v hits=%v %s]", rd.appended, rd.scanKeys, rd.scanHits, v))
+	}
+	return strings.Join(parts, " ")
+}
 
 func (d *polDriver) snap(what string) (kcs []ristretto.VerifPair, used, maxCost int64) {
 	kcs = d.p.KeyCosts()
@@ -144,10 +180,20 @@ func (d *polDriver) add(key uint64, cost int64) {
 	ristretto.VerifObserveFn = func(id int, a, b uint64) {
 		if id >= vpPolSample && id <= vpPolVictim {
 			d.events = append(d.events, polEvent{id, a, b})
+			if len(d.events) > polMaxEvents {
+				panic(polRunaway{}) // unwinds Add (its deferred Unlock runs)
+			}
 		}
 	}
-	victims, added := d.p.Add(key, cost)
+	victims, added, runaway := d.guardedAdd(key, cost)
 	ristretto.VerifObserveFn = nil
+	if runaway {
+		d.dead = true
+		_, rounds, _ := parsePolEvents(d.events[:200])
+		r.Fail("C09", fmt.Sprintf("Add(%d,%d) on keyCosts=%v used=%d maxCost=%d does not terminate: more than %d observations in the eviction loop; first rounds: %s",
+			key, cost, before, usedBefore, maxCost, polMaxEvents, fmtRounds(rounds, 6)), d.input())
+		return
+	}
 	inc, rounds, perr := parsePolEvents(d.events)
 	if inc != nil && !added && (len(rounds) == 0 || rounds[len(rounds)-1].victim != nil) {
 		// the loop was entered and the newcomer turned away without any observation in the
@@ -534,7 +580,7 @@ func streamPolicy(r *Run) {
 		numCounters := int64(16 << uint(r.Rng.Intn(5)))
 		p := ristretto.VerifNewPolicy(numCounters, maxCost)
 		d := &polDriver{r: r, p: p}
-		negOK := r.Rng.Intn(8) == 0   // a few cases with negative costs
+		negOK := r.Rng.Intn(8) == 0      // a few cases with negative costs
 		smallCosts := r.Rng.Intn(3) == 0 // many cheap items: long eviction loops
 		r.Emit("pol new %d", maxCost)
 		d.hist = append(d.hist, fmt.Sprintf("NewPolicy(numCounters=%d,maxCost=%d)", numCounters, maxCost))
@@ -572,7 +618,7 @@ func streamPolicy(r *Run) {
 			}
 		}
 		ops := 40 + r.Rng.Intn(160)
-		for i := 0; i < ops; i++ {
+		for i := 0; i < ops && !d.dead; i++ {
 			k := keys[r.Rng.Intn(len(keys))]
 			switch x := r.Rng.Intn(100); {
 			case x < 50:
@@ -591,12 +637,12 @@ func streamPolicy(r *Run) {
 			case x < 72:
 				d.del(k)
 			case x < 82:
-				var co int64
-				switch prev := p.Cost(k); {
-				case prev > 0 && r.Rng.Intn(2) == 0:
-					co = r.Rng.Int63n(prev + 1) // not raising
-				default:
-					co = pickCost()
+				// all random draws happen before looking at the (enumeration-order dependent)
+				// state, so that the op sequence is a function of the seed alone
+				coin, raw, alt := r.Rng.Intn(2), r.Rng.Int63(), pickCost()
+				co := alt
+				if prev := p.Cost(k); prev > 0 && coin == 0 {
+					co = raw % (prev + 1) // not raising
 				}
 				d.update(k, co)
 			case x < 84:
@@ -658,7 +704,7 @@ func streamPolicyF9(r *Run) {
 		d.snap("new")
 		r.Cases++
 		hit := false
-		for i := 0; i < 30; i++ {
+		for i := 0; i < 30 && !d.dead; i++ {
 			k := uint64(r.Rng.Intn(6))
 			var co int64
 			if r.Rng.Intn(2) == 0 {
